@@ -646,7 +646,8 @@ impl<'lexer> Lexer<'lexer> {
     // ------------------------------------------------------------------------
     if self.till_in {
       self.till_in = false;
-      if let Some(index) = parts.iter().position(|value| value == "in") {
+      // when `in` is the very first part, then there is no variable name before it to be cut off
+      if let Some(index) = parts.iter().position(|value| value == "in").filter(|index| *index > 0) {
         parts.truncate(index);
         self.position = consumed_positions[index - 1] + 1;
         // return the name of the local variable before `in` keyword
